@@ -734,7 +734,12 @@ fn c17_strategy(max: usize) -> BoxedStrategy<History> {
                 }
                 _ => format!("{t1}{}", build_text(salt as usize % 5, &[salt], false)),
             };
-            let k2 = if t2 == t1 { k } else { None };
+            // the second handle borrows the same static, or (2 of 3) an equal text at another address
+            let k2 = match k {
+                Some(k) if t2 == t1 && salt % 3 != 0 => statics::pool().other_with_prefix(k, &t2, salt as usize / 3).or(Some(k)),
+                Some(k) if t2 == t1 => Some(k),
+                _ => None,
+            };
             let mut ops = recipe(r1, &t1, 0, 1, k);
             ops.extend(recipe(r2, &t2, 2, 3, k2));
             ops.push(Op::Compare { a: 0, b: 2 });
